@@ -581,6 +581,33 @@ where
     F2: Fn(&FileGroup<FileInfo>) -> bool,
     H: Fn((&mut FileInfo, FileHash)) -> Option<FileHash> + Sync + Send + 'a,
 {
+    rehash_paths(
+        groups,
+        group_pre_filter,
+        group_post_filter,
+        devices,
+        access_type,
+        true,
+        hash_fn,
+    )
+}
+
+/// Does what [`rehash`] does. If `one_hash_per_file` is false, the paths that are the same file
+/// (hard links) are hashed separately. That is needed when the hash depends on the path.
+fn rehash_paths<'a, F1, F2, H>(
+    groups: Vec<FileGroup<FileInfo>>,
+    group_pre_filter: F1,
+    group_post_filter: F2,
+    devices: &DiskDevices,
+    access_type: FileAccess,
+    one_hash_per_file: bool,
+    hash_fn: H,
+) -> Vec<FileGroup<FileInfo>>
+where
+    F1: Fn(&FileGroup<FileInfo>) -> bool,
+    F2: Fn(&FileGroup<FileInfo>) -> bool,
+    H: Fn((&mut FileInfo, FileHash)) -> Option<FileHash> + Sync + Send + 'a,
+{
     // Allow sharing the hash function between threads:
     type HashFn<'a> = dyn Fn((&mut FileInfo, FileHash)) -> Option<FileHash> + Sync + Send + 'a;
     let hash_fn: &HashFn<'a> = &hash_fn;
@@ -637,7 +664,11 @@ where
 
                 // Run hashing on the thread-pool dedicated to the device.
                 // Group files by their identifiers so we hash only one file per unique id.
-                for (_, fg) in &files.into_iter().group_by(|f| f.file_info.id) {
+                let same_work = |f: &HashedFileInfo| match one_hash_per_file {
+                    true => (f.file_info.id, 0),
+                    false => (f.file_info.id, f.file_info.path.hash128()),
+                };
+                for (_, fg) in &files.into_iter().group_by(same_work) {
                     let mut fg = fg.collect_vec();
                     let tx = tx.clone();
                     let guard = semaphore.clone().access_owned();
@@ -1019,16 +1050,26 @@ fn group_transformed(ctx: &GroupCtx<'_>, files: Vec<FileInfo>) -> Vec<FileGroup<
         file_hash: FileHash::from(0), // doesn't matter, will be computed
         files,
     }];
+    // The paths of one file can share the result unless the program gets to know them
+    let path_independent = match &ctx.hasher.transform {
+        Some(transform) => !transform.sees_original_path(),
+        None => true,
+    };
+    let work_item_count = match path_independent {
+        true => unique_file_count(&groups),
+        false => file_count(&groups),
+    };
     let progress = ctx.log.progress_bar(
         &ctx.phases.format(Phase::TransformAndGroup),
-        ProgressBarLength::Items(unique_file_count(&groups) as u64),
+        ProgressBarLength::Items(work_item_count as u64),
     );
-    let groups = rehash(
+    let groups = rehash_paths(
         groups,
         |_| true,
         |g| g.matches_strictly(&ctx.group_filter), // this is the only and the final stage
         &ctx.devices,
         FileAccess::Sequential,
+        path_independent,
         |(fi, _)| {
             let chunk = FileChunk::new(&fi.path, FilePos(0), fi.len);
             let result =
